@@ -141,6 +141,26 @@ def run(ctx, scale=1):
     elif "comment" not in engines:
         rep.tie_break("translator", "ws_engines", "no comment-aware whitespace engine found in the grammar graph")
 
+    # ---- Tie B for the recogniser engine: `Peg.parseTop` against mo_parsing itself on random small grammars
+    #      (And / MatchFirst / Or / Many / Optional / Group / Suppress / Forward / lookaheads / terminals; the three
+    #      whitespace engines, the comment-aware one built exactly as sql_parser.parser() builds it)
+    if ctx.driver:
+        import peg
+        n_gr = (150 if ctx.quick else 2500) * scale
+        cases_n, mism, stats = peg.correspond(ctx.driver, rng, n_gr, 30,
+                                              on_case=lambda spec, text, real: rep.case("peg:" + json.dumps(spec["start"])[:300] + "|" + text, nontrivial=real[0] == "ok"))
+        rep.count("tie", "engine-model-vs-mo_parsing", cases_n)
+        for k, v in stats.items():
+            rep.count("engine_outcome", k, v)
+        rep.count("engine_mismatches", None, len(mism))
+        for m in mism[:5]:
+            rep.tie_break("correspondence", "Peg.parseTop vs mo_parsing (And/Many/MatchFirst/... on a random grammar)", m)
+        if "comment" in engines:
+            probe = peg.build({"rules": [], "start": ["seq", 2, [["lit", "a", False], ["lit", "b", False]]]})
+            if probe.comment_engine_pattern != engines["comment"][0]:
+                rep.tie_break("translator", "ws_engines", "the comment-aware engine of the small grammars is not the SQL parser's: %r vs %r"
+                              % (probe.comment_engine_pattern, engines["comment"][0]))
+
     # ---- oracle on generated statements: every gap, case policies, AS, semicolon
     g = GT.Gen(rng)
     fixed = GT.Gen(__import__("random").Random(20260930))      # seed-independent part: saturates the gap classes
